@@ -274,6 +274,9 @@ pub fn run_c12(tier: Tier, rep: &mut Report) {
                             push("JSON form is not the canonical text as a JSON string".into(), js);
                         }
                     }
+                    for clause in extra_forms_kt(kt, rec, &canon) {
+                        push(clause, String::new());
+                    }
                     for (l, t) in [("with prefix", canon.clone()), ("without prefix", canon[4..].to_string())] {
                         match parse_kt(kt, &t) {
                             Some(Ok(Ok((o2, _)))) => {
@@ -366,6 +369,69 @@ pub fn run_c12(tier: Tier, rep: &mut Report) {
     rep.require_class("c12:pool-record-accepted");
     rep.require_class("c12:rejected:appended-bytes");
     rep.require_class("c12:rejected:trailing-bits");
+}
+
+/// Other ways in and out of the text form: Display with formatting flags, serde_json through
+/// to_value / from_value, to_vec / from_slice, from_reader, and an escaped spelling of the JSON string.
+fn extra_forms_kt(kt: KeyType, rec: &[u8], canon: &str) -> Vec<String> {
+    fn go<K: EnrKey>(b: &[u8], canon: &str) -> Vec<String> {
+        let mut bad = vec![];
+        let Ok(e) = Enr::<K>::decode(&mut &b[..]) else { return bad };
+        for (l, s) in [
+            ("{:#}", format!("{e:#}")),
+            ("{:400}", format!("{e:400}")),
+            ("{:>420}", format!("{e:>420}")),
+            ("{:-<420}", format!("{e:-<420}")),
+            ("{:.16}", format!("{e:.16}")),
+            ("{:^5.3}", format!("{e:^5.3}")),
+            ("to_string()", e.to_string()),
+        ] {
+            if s != canon {
+                bad.push(format!("Display with format spec {l} is not the canonical text"));
+            }
+        }
+        let js = serde_json::to_string(canon).unwrap();
+        match serde_json::to_value(&e) {
+            Ok(v) => {
+                if v != serde_json::Value::String(canon.to_string()) {
+                    bad.push("serde_json::to_value is not the canonical text".into());
+                }
+                match serde_json::from_value::<Enr<K>>(v) {
+                    Ok(d) => {
+                        if d != e {
+                            bad.push("serde_json::from_value(to_value(r)) differs from r".into());
+                        }
+                    }
+                    Err(_) => bad.push("serde_json::from_value rejects the record's own JSON value".into()),
+                }
+            }
+            Err(_) => bad.push("serde_json::to_value fails".into()),
+        }
+        if serde_json::to_vec(&e).ok() != Some(js.clone().into_bytes()) {
+            bad.push("serde_json::to_vec is not the canonical JSON string".into());
+        }
+        if !matches!(serde_json::from_slice::<Enr<K>>(js.as_bytes()), Ok(ref d) if *d == e) {
+            bad.push("serde_json::from_slice rejects or changes the record's own JSON string".into());
+        }
+        if !matches!(serde_json::from_reader::<_, Enr<K>>(js.as_bytes()), Ok(ref d) if *d == e) {
+            bad.push("serde_json::from_reader rejects or changes the record's own JSON string".into());
+        }
+        // the same JSON string with its first character written as an escape
+        let escaped = format!("\"\\u0065{}", &js[2..]);
+        if !matches!(serde_json::from_str::<Enr<K>>(&escaped), Ok(ref d) if *d == e) {
+            bad.push("serde_json::from_str rejects or changes an escaped spelling of the record's own JSON string".into());
+        }
+        bad
+    }
+    match kt {
+        KeyType::K256 => go::<enr::k256::ecdsa::SigningKey>(rec, canon),
+        #[cfg(feature = "cfg-a")]
+        KeyType::LibSecp => go::<enr::secp256k1::SecretKey>(rec, canon),
+        #[cfg(not(feature = "cfg-a"))]
+        KeyType::LibSecp => vec![],
+        KeyType::Ed => go::<enr::ed25519_dalek::SigningKey>(rec, canon),
+        KeyType::Combined => go::<enr::CombinedKey>(rec, canon),
+    }
 }
 
 fn forms_kt(kt: KeyType, rec: &[u8]) -> Option<(String, String)> {
